@@ -483,10 +483,14 @@ func c20CopyNetValues(c *Ctx, r *Report, rule string) {
 	r.rule(rule, 2, "copyNet builds IP and Mask of its result from clones of the argument's IP and Mask")
 	fn := c.ssaFunc("copyNet")
 	if fn == nil {
+		// written out in place in APLPrefix.copy
+		fn = c.ssaFunc("APLPrefix.copy")
+	}
+	if fn == nil {
 		r.cerr(rule, "copyNet", "function not found")
 		return
 	}
-	r.fn("copyNet")
+	r.fn(fnDisplay(fn))
 	for _, field := range []string{"IP", "Mask"} {
 		sts := storesToField(fn, "IPNet", field)
 		if len(sts) == 0 {
